@@ -66,6 +66,7 @@ def run_units(units, tier):
 
 def decide(pid, tier, seed):
     t0 = time.time()
+    replay.TIER = tier
     cfg = props.PROPS[pid]
     baseline = load_json('baseline_obligations.json', {})
     findings = load_json('known_findings.json', {'findings': []})['findings']
